@@ -869,7 +869,7 @@ impl Arena {
         Freelist::Optimistic => match self.alloc_slow_path_optimistic(size) {
           Ok(bytes) => return Ok(Some(bytes)),
           Err(e) => {
-            if i == self.max_retries - 1 {
+            if i + 1 >= self.max_retries {
               return Err(e);
             }
           }
@@ -877,7 +877,7 @@ impl Arena {
         Freelist::Pessimistic => match self.alloc_slow_path_pessimistic(size) {
           Ok(bytes) => return Ok(Some(bytes)),
           Err(e) => {
-            if i == self.max_retries - 1 {
+            if i + 1 >= self.max_retries {
               return Err(e);
             }
           }
@@ -1025,7 +1025,7 @@ impl Arena {
               return Ok(Some(bytes));
             }
             Err(e) => {
-              if i == self.max_retries - 1 {
+              if i + 1 >= self.max_retries {
                 return Err(e);
               }
             }
@@ -1038,7 +1038,7 @@ impl Arena {
               return Ok(Some(bytes));
             }
             Err(e) => {
-              if i == self.max_retries - 1 {
+              if i + 1 >= self.max_retries {
                 return Err(e);
               }
             }
@@ -1180,7 +1180,7 @@ impl Arena {
             return Ok(Some(allocated));
           }
           Err(e) => {
-            if i == self.max_retries - 1 {
+            if i + 1 >= self.max_retries {
               return Err(e);
             }
           }
@@ -1191,7 +1191,7 @@ impl Arena {
             return Ok(Some(allocated));
           }
           Err(e) => {
-            if i == self.max_retries - 1 {
+            if i + 1 >= self.max_retries {
               return Err(e);
             }
           }
